@@ -315,6 +315,8 @@ func c06Panel(tier string) []STerm {
 	p := []STerm{
 		aInt(0), aInt(1), aInt(-1), aInt(2), aInt(7), aInt(math.MaxInt64), aInt(math.MinInt64), aInt(math.MaxInt64 - 1), aInt(math.MinInt64 + 1), aInt(1 << 32), aInt(-(1 << 31)), aInt(3037000500),
 		aStr(""), aStr("abc"), aStr("ab"), aStr("bc"), aStr("a.c"), aStr("["),
+		// patterns whose only regex syntax is a backslash escape, a malformed escape, and subjects for them
+		aStr(`file\d`), aStr("file7"), aStr(`a\.c`), aStr(`ab\`),
 		aDate(0), aDate(1), aDate(1700000000), aDate(math.MaxUint64),
 		aBytes(nil), aBytes([]byte{1}), aBytes([]byte{1, 2}),
 		aBool(true), aBool(false),
